@@ -23,7 +23,7 @@ import (
 type TagReader struct {
 	Data      []byte
 	pos       int
-	FailAfter int // -1 none: Read fails after this many bytes
+	FailAfter int    // -1 none: Read fails after this many bytes
 	Err       string // set on values reconstructed from a stream that ended in an error
 	Closed    int
 	OnRead    func()
@@ -109,19 +109,20 @@ const (
 )
 
 type Gen struct {
-	R      *rand.Rand
-	Tag    string
-	Level  int // 0 simple, 1 boundary-heavy, 2 wild
-	OneOf  map[string]bool
+	R     *rand.Rand
+	Tag   string
+	Level int // 0 simple, 1 boundary-heavy, 2 wild
+	OneOf map[string]bool
 	// Discr: oneOf Go type name -> discriminator info (domain restriction: the discriminator
 	// property of a variant value must carry a value that selects that variant).
-	Discr  map[string]*DiscrInfo
+	Discr       map[string]*DiscrInfo
 	Unsupported []string
-	MaxRaw int
-	depth  int
+	MaxRaw      int
+	depth       int
 	// SetAll forces every Maybe/Nullable to be set (used to reach secured operations).
 	SetAll bool
-	// EmptySlices allows empty and nil slices outside bodies too (response header arrays: the handler decides).
+	// EmptySlices allows empty and nil slices outside bodies too (response header arrays: the handler decides),
+	// and NaN / infinite floats (a handler result that cannot be encoded).
 	EmptySlices bool
 	// NoEmptyStrings avoids empty string values (wire-validity oracle restriction).
 	NoEmptyStrings bool
@@ -244,6 +245,10 @@ func (g *Gen) int64n(bits int) int64 {
 
 func (g *Gen) float(bits int) float64 {
 	r := g.R
+	if g.EmptySlices && r.IntN(10) == 0 {
+		// what only a handler can produce: a number JSON cannot carry (the response cannot be encoded)
+		return []float64{math.NaN(), math.Inf(1), math.Inf(-1)}[r.IntN(3)]
+	}
 	if g.Level == 0 {
 		return float64(r.IntN(1000)) / 4
 	}
